@@ -249,13 +249,15 @@ impl Ctx {
     /// Reports a violation of this check's property (or of `prop_override`).
     /// `key` identifies the defect (site/shape), `what` is a one-line description,
     /// `replay` is a self-contained JSON description of the failing case.
-    pub fn violation(&self, key: &str, what: &str, replay: Value) {
+    /// Returns true if this is a NEW violation (not filtered, not a listed known finding):
+    /// explorers stop an execution on a new violation but continue past known findings.
+    pub fn violation(&self, key: &str, what: &str, replay: Value) -> bool {
         self.violation_for(&self.prop.clone(), key, what, replay)
     }
 
-    pub fn violation_for(&self, prop: &str, key: &str, what: &str, replay: Value) {
+    pub fn violation_for(&self, prop: &str, key: &str, what: &str, replay: Value) -> bool {
         if !(self.filter)(key) {
-            return;
+            return false;
         }
         if let Some(k) = self
             .known
@@ -265,13 +267,13 @@ impl Ctx {
             let mut seen = self.known_seen.lock().unwrap();
             let e = seen.entry(format!("{prop}\u{1}{key}\u{1}{}", k.what)).or_insert(0);
             *e += 1;
-            return;
+            return false;
         }
         let full = format!("{prop}\u{1}{key}");
         let mut v = self.vios.lock().unwrap();
         if let Some(r) = v.get_mut(&full) {
             r.count += 1;
-            return;
+            return true;
         }
         let dir = format!("{VERIF_ROOT}/replays/{prop}");
         let _ = std::fs::create_dir_all(&dir);
@@ -298,6 +300,7 @@ impl Ctx {
                 replay: path,
             },
         );
+        true
     }
 
     pub fn num_violations(&self) -> usize {
